@@ -316,14 +316,14 @@ EXTRA = {
  "C19": " Round 2: the confirm filter and the save of filtered confirms hold chainLock; the pending-write index rules are evaluated here as well.",
  "C17": " Round 2: Hash/Commit answer from hashRoot over the current root or from a memo every content write drops; the value slot of a branch node and a short node's value child are never passed to the recursive hash.",
  "C12": " Round 2: the equity trie root has a closed writer set and its raw setter is reached only from the EquityRootLog's redo/undo.",
- "C08": " Round 2: an accepted recovery scan returns the scan cursor, not the file size; RunContext.Flush reports success only after the file was replaced, or skips under a dirty flag that every writer of the candidate cache raises; every insert into the pending-write index counts the pending writes of its key.",
- "C06": " Round 2: SetSingers installs a freshly built list; signing hashes read fields directly or through faithful accessors.",
- "C05": " Round 2: the journal clauses of C07 and the sandbox clauses of C16 are evaluated under C05 as well.",
- "C04": " Round 2: the identity memo (Transaction.hash) is filled only by Hash from rlpHash of the receiver, reset on whole-struct copies, and its address goes nowhere else; every TxTracer.DelTrace argument derives from a TimeBuckets.Expire result, interprocedurally through helper parameters.",
- "C01": " Also: block gas is accounted identically by miner and validator (closed callers of the gas pool, filled once from header.GasLimit), and the change-journal clauses of C07 are evaluated here as well (independence from discarded candidates needs an exact revert). Round 2: nothing is carried from one block's execution to the next (package-level writes in the closure are table-listed; executor fields are constructor-only or unconditionally re-initialised before the first transaction; Reset(ParentHash) dominates every applyTx and return), and the map-order exemption of ChangeVotesByBalance has needMerge(VotesLog)=true as a partially evaluated premise.",
- "C02": " Also: after a restart the replay guard is refilled over the window measured from the stable block's time (not the wall clock). Round 2: Seal fills a copy of the header; the C04 clauses are evaluated under C02 as well.",
- "C03": " Also: every advance of the stable root prunes from the root that was stable immediately before that step. Round 2: snapshot votes, confirm counting and the two-thirds threshold draw on one deputy set.",
- "C07": " Also: undo/redo write only through the accessor setters of their journalling sibling, and copy-in setters re-initialise their destination before copying. Round 2: a constructed change log is pushed on every path to the raw write; the snapshot precedes the first journalled write of its step.",
+ "C08": " Round 2: an accepted recovery scan returns the scan cursor, not the file size; RunContext.Flush reports success only after the file was replaced, or skips under a dirty flag that every writer of the candidate cache raises; every insert into the pending-write index counts the pending writes of its key. Round 3: the candidate cache cursor after a load comes from the input length; the replay-guard reload clause is evaluated here as well.",
+ "C06": " Round 2: SetSingers installs a freshly built list; signing hashes read fields directly or through faithful accessors. Round 3: the C04 clauses (canonical signatures, identity) are evaluated here as well.",
+ "C05": " Round 2: the journal clauses of C07 and the sandbox clauses of C16 are evaluated under C05 as well. Round 3: fees go to the income address in the miner's current profile; no stale candidate-profile write-back.",
+ "C04": " Round 2: the identity memo (Transaction.hash) is filled only by Hash from rlpHash of the receiver, reset on whole-struct copies, and its address goes nowhere else; every TxTracer.DelTrace argument derives from a TimeBuckets.Expire result, interprocedurally through helper parameters. Round 3: onStableChanged receives the block UpdateStable promoted.",
+ "C01": " Also: block gas is accounted identically by miner and validator (closed callers of the gas pool, filled once from header.GasLimit), and the change-journal clauses of C07 are evaluated here as well (independence from discarded candidates needs an exact revert). Round 2: nothing is carried from one block's execution to the next (package-level writes in the closure are table-listed; executor fields are constructor-only or unconditionally re-initialised before the first transaction; Reset(ParentHash) dominates every applyTx and return), and the map-order exemption of ChangeVotesByBalance has needMerge(VotesLog)=true as a partially evaluated premise. Round 3: node-local state of shared objects read inside the closure is table-listed (outside-state rule).",
+ "C02": " Also: after a restart the replay guard is refilled over the window measured from the stable block's time (not the wall clock). Round 2: Seal fills a copy of the header; the C04 clauses are evaluated under C02 as well. Round 3: the older-than-parent guard tests the raw time difference.",
+ "C03": " Also: every advance of the stable root prunes from the root that was stable immediately before that step. Round 2: snapshot votes, confirm counting and the two-thirds threshold draw on one deputy set. Round 3: GetUnConfirmByHeight answers from the unconfirmed map only; every confirm signature is recorded in lastSig before control leaves.",
+ "C07": " Also: undo/redo write only through the accessor setters of their journalling sibling, and copy-in setters re-initialise their destination before copying. Round 2: a constructed change log is pushed on every path to the raw write; the snapshot precedes the first journalled write of its step. Round 3: the all-or-nothing clause C16.4 is evaluated here as well.",
  "C09": " Also: a node made to carry an existing node's account keeps that node's dye. Round 2: the manager's mutable account never aliases a value cached in a view (Get returns copies or NewAccount copies); the pending-write index rules are evaluated here as well.",
  "C10": " Also: the list ranked at start-up is built only from candidates whose stored isCandidate flag is true. Round 2: every list that becomes a published Top has the provenance of the total order (ranking result, published Top, order-preserving filter/prefix, empty), interprocedurally; no account Put of Save runs after the ranking; needMerge(VotesLog) by partial evaluation.",
  "C11": " Also: the balance a vote transaction weighs is read before the transaction's gas purchase. Round 2: outside the journal every SetVotes is relative to GetVotes of the same account or one of three listed absolute writes.",
